@@ -67,9 +67,12 @@ def write_source(cols: Dict[str, int], path_base: Path, h: int) -> Tuple[str, st
         formats += ["csv", "ndjson", "json-rows", "yaml-rows"]
         if lens == {0}:
             formats = ["json-map", "yaml-map", "csv"]
+    elif 0 not in lens:
+        # columns of different lengths written row-wise are SPARSE rows (a later row lacks a key): the same columns
+        formats += ["ndjson", "json-rows", "yaml-rows"]
     f = formats[h % len(formats)]
-    n = next(iter(lens)) if len(lens) == 1 else 0
-    rows = [{k: data[k][i] for k in cols} for i in range(n)] if len(lens) == 1 else []
+    n = max(lens) if lens else 0
+    rows = [{k: data[k][i] for k in cols if i < len(data[k])} for i in range(n)]
     if f == "csv":
         p = path_base.with_suffix(".csv")
         ks = list(cols)
@@ -364,7 +367,7 @@ def check(tier: str) -> int:
     run.assumptions = ["'rejected' = PipelineConfigurationError or ValueError from parse or expand; which stage fires is not compared",
                        "promptness / no materialisation is a measurement: wall < 2 s and tracemalloc peak < 64 MB under RLIMIT_AS 3 GB",
                        "zero blocks with max_runs = 0 is left unspecified"]
-    for cfg in ("RunSpace.src1.check", "RunSpace.ctx2.check", "RunSpace.src2.check"):
+    for cfg in ("RunSpace.src1.check", "RunSpace.ctx2.check", "RunSpace.src2.check", "RunSpace.three.check"):
         res = tlc.run_tlc("MC_RunSpace", cfg, coverage=True, timeout=1800)
         run.add_tlc(res)
         run.require_tlc_ok(res, cfg)
@@ -374,6 +377,7 @@ def check(tier: str) -> int:
     cli_dry_run_sample(run)
     _replay(run, "RunSpace.ctx2.emit")
     _replay(run, "RunSpace.src2.emit")      # two blocks over one shared source file
+    _replay(run, "RunSpace.three.emit")     # three blocks: duplicates between neighbours and between non-neighbours
     if tier == "quick":
         _replay(run, "RunSpace.sim.emit", simulate="num=4000", depth=12, seed=seed + 8)
         _replay(run, "RunSpace.src1.emit")
